@@ -5,10 +5,12 @@
      cmpsd <int> <hex16>               compare_int64_double       -> i:<r> | ub
      cmpud <nat> <hex16>               compare_uint64_double      -> i:<r> | ub
      math/floor|ceil|trunc|round|abs <operand>, math/gcd|lcm <operand> <operand>   (Int64/MathFns.lean)
+     zero? pos? neg? one? even? odd? <operand>                                     (Int64/Preds.lean)
      link <0|1>                        sets `Cfg.s64BelowU64` (the harness answers `link?` with the order of the two type descriptors)
    IEEE arithmetic on two plain numbers is the model's own (`Ieee.ieee`): exact rational result, rounded once. -/
 import Driver.Util
 import JanetModel.Int64.MathFns
+import JanetModel.Int64.Preds
 open Driver JanetModel.Int64
 
 /-- IEEE-754 binary64 arithmetic: the executable instance of `Int64/Ieee.lean` (round-to-nearest-even of the exact rational
@@ -72,7 +74,11 @@ def step (cfg : Cfg) (toks : List String) : Cfg × String :=
        else
          (match Ieee.mathFn fn args with
           | some r => (cfg, showRes r)
-          | none => (cfg, showRes (evalFn cfg numOps fn args)))
+          | none =>
+            (match JanetModel.Gen.Int64.polyPreds.lookup fn, args with
+             | some _, [x] => (cfg, showRes (polyPred cfg numOps fn x))
+             | some _, _ => (cfg, "err:arity")
+             | none, _ => (cfg, showRes (evalFn cfg numOps fn args))))
      | none => (cfg, "bad-op"))
   | _ => (cfg, "bad-op")
 
